@@ -1,5 +1,6 @@
 pub mod bind;
 pub mod c01;
+pub mod c02;
 pub mod c05;
 pub mod c06;
 pub mod c07;
@@ -21,6 +22,7 @@ use crate::common::*;
 pub fn run(id: &str, tier: Tier) -> Option<Report> {
     Some(match id {
         "C01" => c01::run(tier),
+        "C02" => c02::run(tier),
         "C05" => c05::run(tier),
         "C06" => {
             let mut rep = Report::new("C06", "model_checking", tier);
@@ -80,6 +82,7 @@ pub fn run(id: &str, tier: Tier) -> Option<Report> {
 pub fn replay(id: &str, v: &serde_json::Value) -> i32 {
     match id {
         "C01" => c01::replay(v),
+        "C02" => c02::replay(v),
         "C05" => c05::replay(v),
         "C06" if v["part"] == "binding" => bind::replay(v),
         "C07" if v["part"] == "binding" => bind::replay(v),
